@@ -1,5 +1,6 @@
 import DefraModel.Encrypt
 import DefraModel.Proofs.EncryptInv
+import DefraModel.Proofs.EncryptComp
 
 /-!
 # C11 — encrypted fields never leave the node in clear
@@ -98,6 +99,24 @@ theorem keyless_stores_nothing_encrypted (c : Cfg) (hd : c.isDoc = true) (fs : L
     | some f => rfl
   have := doc_encrypted_never_clear c hd fs ops b hb1 hr hfs
   rw [this] at hpl; cases hpl
+
+/-- **a key-less receiver does not even see a document-level encrypted document**: after any history, every
+    composite block the author wrote links a key (`CompEnc`, a third invariant by induction over the history), so
+    from the author's blocks a node without keys can read no composite: the document is not visible there at all -/
+theorem keyless_cannot_see_a_doc_encrypted_document (c : Cfg) (hd : c.isDoc = true) (fs : List FName) (ops : List Op) :
+    docVisible [] ((run (some c) fs ops).blocks.filter (fun b => !b.remote)) = false := by
+  unfold docVisible
+  rw [List.any_eq_false]
+  intro b hb
+  obtain ⟨hb1, hb2⟩ := List.mem_filter.mp hb
+  have hr : b.remote = false := by simpa using hb2
+  cases hf : b.field with
+  | some f => simp
+  | none =>
+    have he := run_compEnc c hd fs ops b hb1 hr hf
+    cases hk : b.enc with
+    | none => rw [hk] at he; cases he
+    | some k => simp [canRead, hk]
 
 /-! ### receivers holding some of the keys -/
 
@@ -201,6 +220,10 @@ example : (run none ["a"] [.update ["a"]]).blocks.filterMap Blk.plain = [(0, "a"
 /-- a receiver holding only the key of field `a` of a field-level encrypted document stores `a`, not `b` -/
 example : stored [⟨0, some "a"⟩] (run (some ⟨false, ["a", "b"]⟩) ["a", "b"] []).blocks = [(0, "a")] := by decide
 example : stored [⟨0, some "a"⟩, ⟨1, some "b"⟩] (run (some ⟨false, ["a", "b"]⟩) ["a", "b"] []).blocks = [(0, "a"), (0, "b")] := by decide
+
+/-- document-level: invisible without keys, visible with the document key -/
+example : docVisible [] (run (some ⟨true, []⟩) ["a"] [.update ["b"], .delete]).blocks = false ∧
+    docVisible [⟨1, none⟩] (run (some ⟨true, []⟩) ["a"] [.update ["b"], .delete]).blocks = true := by decide
 
 /-- the abstract cipher has a model -/
 example : ∃ c : Cipher Nat Nat (Nat × Nat), ∀ k p, roundTrip c k p = some p :=
